@@ -151,6 +151,21 @@ def run(tier, seed, replay=None):
                 else:
                     chk.nontrivial.add(("own", hname, tuple(x for x, _ in seqn)))
             chk.count("own language with a composite stateful predicate")
+        # ---- (1c) what a scan reports does not depend on a cache left by an earlier scan: a file that is not valid UTF-8,
+        #          edited only in its invalid bytes (seeded change C06-18: checksum taken of the decoded text)
+        for k in range(3 if tier == "quick" else 20):
+            try:
+                wc, nc, _, rel = F.latin1_edit_scenario(tmp, k)
+                chk.evaluations += 1
+                chk.count("non-UTF-8 file edited in its invalid bytes, rescanned with the cache")
+                if wc != nc:
+                    chk.violation({"file": rel}, f"{rel} (Latin-1) edited only in bytes that are invalid as UTF-8: with the earlier scan's cache "
+                                  f"the report lists {[m['unit_name'] for m in wc['codebase']['files'].get(rel, {}).get('measurements', [])]}, "
+                                  f"without it {[m['unit_name'] for m in nc['codebase']['files'].get(rel, {}).get('measurements', [])]}")
+                else:
+                    chk.nontrivial.add(("latin1", k))
+            except Exception as ex:
+                chk.violation({"scenario": "latin1"}, f"rescan of an edited non-UTF-8 file raised {type(ex).__name__}: {ex}")
         # ---- (1b) the order of a DFA state's transition list (a Python set's iteration order) must not matter:
         #          every text is analysed again with all transition lists reversed
         from codelimit.common.gsm import matcher as _matcher
